@@ -49,6 +49,11 @@ LAYOUTS = {
                       'development/2.0', 'development/2.1']),
     'd3': dict(chain=['development/1.0', 'development/2.0',
                       'development/3.0']),
+    's1d3': dict(chain=['stabilization/1.0.0', 'development/1.0',
+                        'development/2.0', 'development/3.0']),
+    'd5': dict(chain=['development/1.0', 'development/1.1',
+                      'development/2.0', 'development/2.1',
+                      'development/3.0']),
     # hotfix/0.9.0 (tag 0.9.0 on its base) next to two development branches
     'h1d2': dict(chain=['development/1.0', 'development/2.0'],
                  hotfix=['hotfix/0.9.0'], tags={'0.9.0': 'root'}),
